@@ -92,7 +92,9 @@ type GhostUpdate struct {
 	Callee  string
 	Ordinal int
 	Name    string
+	Lhs     ast.Expr
 	Expr    ast.Expr
+	Before  bool
 }
 
 type SpecFunc struct {
@@ -110,6 +112,12 @@ type SpecParam struct {
 	Name string
 	Type string // int, bool, mem, pos(x)
 	Of   string // for pos(x): the mem parameter
+}
+
+type Macro struct {
+	Name   string
+	Params []string
+	Body   ast.Expr
 }
 
 type GhostVar struct {
@@ -276,7 +284,7 @@ var clauseKeywords = map[string]bool{
 	"lemma": true, "requires": true, "ensures": true, "top-ensures": true, "modifies": true, "allocates": true,
 	"panics": true, "abstract": true, "nosafety": true, "loop": true, "invariant": true, "top-invariant": true,
 	"decreases": true, "assert": true, "alias": true, "props": true, "recvnonnil": true, "ghostset": true,
-	"end": true, "opaque": true, "witness": true, "trusted-pure": true, "crlf-discipline": true, "crlf-exempt": true, "replay-go": true, "appends-raw": true, "fresh-override": true, "fresh-except": true,
+	"end": true, "opaque": true, "witness": true, "trusted-pure": true, "crlf-discipline": true, "crlf-exempt": true, "replay-go": true, "appends-raw": true, "fresh-override": true, "fresh-except": true, "macro": true, "ghostset-at-entry": true,
 }
 
 // parseContractFile reads the //@ lines of one file.
@@ -343,18 +351,25 @@ func (p *contractParser) line(t string, no int) error {
 		p.cur = c
 		p.loop = nil
 		p.lemma = nil
-		p.w.addContract(c)
+		if c.Key != "" {
+			p.w.addContract(c)
+		}
 		return nil
 	case "ghost":
-		// ghost var name sort [= init]
+		// ghost var NAME int|bool   |   ghost field Type.NAME int|bool
 		fs := strings.Fields(rest)
-		if len(fs) < 3 || fs[0] != "var" {
-			return fmt.Errorf("expected: ghost var NAME int|bool")
+		if len(fs) < 3 || (fs[0] != "var" && fs[0] != "field") {
+			return fmt.Errorf("expected: ghost var NAME int|bool  or  ghost field Type.NAME int|bool")
 		}
 		g := &GhostVar{Name: fs[1], Sort: "Int", Init: "0"}
 		if fs[2] == "bool" {
 			g.Sort = "Bool"
 			g.Init = "false"
+		}
+		if fs[0] == "field" {
+			if strings.Count(g.Name, ".") == 1 {
+				g.Name = p.pkg.Name() + "." + g.Name
+			}
 		}
 		p.w.ghosts[g.Name] = g
 		return nil
@@ -362,12 +377,33 @@ func (p *contractParser) line(t string, no int) error {
 		return p.specFunc(kw == "rec", rest, no)
 	case "fresh-override":
 		return p.freshOverride(rest)
+	case "macro":
+		// macro NAME(p1, p2) = expr  (parameters may be of any kind; expanded at each use)
+		i := strings.Index(rest, "(")
+		j := matchBracket(rest, i)
+		k := strings.Index(rest, "=")
+		if i < 0 || j < 0 || k < j {
+			return fmt.Errorf("macro needs NAME(params) = expr")
+		}
+		m := &Macro{Name: strings.TrimSpace(rest[:i])}
+		for _, a := range strings.Split(rest[i+1:j], ",") {
+			if a = strings.TrimSpace(a); a != "" {
+				m.Params = append(m.Params, a)
+			}
+		}
+		e, err := parseSpecExpr(strings.TrimSpace(rest[k+1:]))
+		if err != nil {
+			return err
+		}
+		m.Body = e
+		p.w.macros[m.Name] = m
+		return nil
 	case "trusted-pure":
 		// trusted-pure pkg | pkg.Type : calls have no effect on modelled state; results are arbitrary
 		parts := strings.SplitN(strings.TrimSpace(rest), ".", 2)
 		path := p.w.resolvePkgName(p.pkg, parts[0])
 		if path == "" {
-			return fmt.Errorf("unknown package %q", parts[0])
+			return nil // package not loaded in this run: nothing can call into it
 		}
 		key := path
 		if len(parts) == 2 {
@@ -521,15 +557,29 @@ func (p *contractParser) line(t string, no int) error {
 		}
 		cl.Top = true
 		c.Asserts = append(c.Asserts, CallAssert{Callee: callee, Ordinal: ord, Clause: cl, After: hd[0] == "after"})
+	case "ghostset-at-entry":
+		as := strings.SplitN(rest, "=", 2)
+		if len(as) != 2 {
+			return fmt.Errorf("ghostset-at-entry needs lhs = expr")
+		}
+		e, err := parseSpecExpr(strings.TrimSpace(as[1]))
+		if err != nil {
+			return err
+		}
+		lhs, err := parseSpecExpr(strings.TrimSpace(as[0]))
+		if err != nil {
+			return err
+		}
+		c.Ghosts = append(c.Ghosts, GhostUpdate{Callee: "@entry", Ordinal: -1, Name: strings.TrimSpace(as[0]), Lhs: lhs, Expr: e})
 	case "ghostset":
-		// ghostset after CALLEE[#n]: name = expr
+		// ghostset before|after CALLEE[#n]: lhs = expr     (lhs: ghost variable or x.ghostfield)
 		i := strings.Index(rest, ":")
 		if i < 0 {
-			return fmt.Errorf("ghostset needs 'after CALLEE[#n]: name = expr'")
+			return fmt.Errorf("ghostset needs 'before|after CALLEE[#n]: lhs = expr'")
 		}
 		hd := strings.Fields(rest[:i])
-		if len(hd) != 2 {
-			return fmt.Errorf("ghostset needs 'after CALLEE[#n]: name = expr'")
+		if len(hd) != 2 || (hd[0] != "before" && hd[0] != "after") {
+			return fmt.Errorf("ghostset needs 'before|after CALLEE[#n]: lhs = expr'")
 		}
 		callee, ord := hd[1], -1
 		if j := strings.Index(callee, "#"); j >= 0 {
@@ -541,13 +591,17 @@ func (p *contractParser) line(t string, no int) error {
 		}
 		as := strings.SplitN(rest[i+1:], "=", 2)
 		if len(as) != 2 {
-			return fmt.Errorf("ghostset needs name = expr")
+			return fmt.Errorf("ghostset needs lhs = expr")
 		}
 		e, err := parseSpecExpr(strings.TrimSpace(as[1]))
 		if err != nil {
 			return err
 		}
-		c.Ghosts = append(c.Ghosts, GhostUpdate{Callee: callee, Ordinal: ord, Name: strings.TrimSpace(as[0]), Expr: e})
+		lhs, err := parseSpecExpr(strings.TrimSpace(as[0]))
+		if err != nil {
+			return err
+		}
+		c.Ghosts = append(c.Ghosts, GhostUpdate{Callee: callee, Ordinal: ord, Name: strings.TrimSpace(as[0]), Lhs: lhs, Expr: e, Before: hd[0] == "before"})
 	default:
 		return fmt.Errorf("unknown clause %q", kw)
 	}
@@ -589,7 +643,9 @@ func (p *contractParser) header(kind, rest string, no int) (*Contract, error) {
 		}
 		path := p.w.resolvePkgName(p.pkg, parts[0])
 		if path == "" {
-			return nil, fmt.Errorf("unknown package %q in %s contract", parts[0], kind)
+			// package not loaded in this run: keep parsing the clauses into an unregistered contract
+			c.Key = ""
+			return c, nil
 		}
 		c.Key = path + "." + parts[1]
 		c.PkgPath = path
